@@ -34,7 +34,9 @@ import (
 	tmproto "github.com/tendermint/tendermint/proto/tendermint/types"
 	dbm "github.com/tendermint/tm-db"
 
+	"github.com/cosmos/cosmos-sdk/baseapp"
 	"github.com/cosmos/cosmos-sdk/simapp"
+	"github.com/cosmos/cosmos-sdk/store"
 	sdk "github.com/cosmos/cosmos-sdk/types"
 	banktypes "github.com/cosmos/cosmos-sdk/x/bank/types"
 
@@ -59,6 +61,28 @@ type c14Rep struct {
 
 func c14NewApp(db dbm.DB) *app.Teleport {
 	return app.NewTeleport(log.NewNopLogger(), db, nil, true, map[int64]bool{}, app.DefaultNodeHome, 5, encoding.MakeConfig(app.ModuleBasics), simapp.EmptyAppOptions{})
+}
+
+// c14AppOpts: an operator's app.toml / command line as servertypes.AppOptions
+type c14AppOpts map[string]interface{}
+
+func (o c14AppOpts) Get(k string) interface{} { return o[k] }
+
+// c14NewAppConfigured: the same application as a node whose operator tuned everything that is meant to be node-local:
+// JSON-RPC gas cap, EVM tracer, max-tx-gas-wanted, API / gRPC toggles, minimum gas prices, event indexing, inter-block
+// cache, IAVL cache size, invariant-check period, skip-genesis-invariants, another home directory.
+// (not varied: pruning — the harness needs old versions for proofs; --trace — it changes the ABCI log, which is compared)
+func c14NewAppConfigured(db dbm.DB) *app.Teleport {
+	opts := c14AppOpts{
+		"json-rpc.gas-cap": uint64(1_000_000), "json-rpc.enable": true, "json-rpc.evm-timeout": "1s", "json-rpc.txfee-cap": 0.01,
+		"evm.tracer": "struct", "evm.max-tx-gas-wanted": uint64(500_000),
+		"api.enable": true, "api.swagger": true, "grpc.enable": false, "grpc-web.enable": false,
+		"minimum-gas-prices": "0.25stake", "iavl-cache-size": 7, "inter-block-cache": true, "index-events": []string{"message.sender"},
+		"x-crisis-skip-assert-invariants": true, "telemetry.enabled": false, "halt-height": 0, "min-retain-blocks": 3,
+	}
+	return app.NewTeleport(log.NewNopLogger(), db, nil, true, map[int64]bool{}, "/nonexistent/c14-node-home", 1, encoding.MakeConfig(app.ModuleBasics), opts,
+		baseapp.SetMinGasPrices("0.25stake"), baseapp.SetIndexEvents([]string{"message.sender"}), baseapp.SetIAVLCacheSize(7),
+		baseapp.SetInterBlockCache(store.NewCommitKVStoreCacheManager()), baseapp.SetMinRetainBlocks(3))
 }
 
 func newC14Rep(t *testing.T, r *Rec) *c14Rep {
@@ -98,7 +122,10 @@ func (p *c14Rep) nextHeader(n *app.Teleport) tmproto.Header {
 }
 
 // fork opens a fresh app instance on a copy of the committed database of src.
-func (p *c14Rep) fork(src *app.Teleport) *app.Teleport {
+func (p *c14Rep) fork(src *app.Teleport) *app.Teleport { return p.forkCfg(src, false) }
+
+// forkCfg: configured = the fork is opened by a node with another app.toml (c14NewAppConfigured)
+func (p *c14Rep) forkCfg(src *app.Teleport, configured bool) *app.Teleport {
 	db := p.dbs[src]
 	cp := dbm.NewMemDB()
 	it, err := db.Iterator(nil, nil)
@@ -110,6 +137,9 @@ func (p *c14Rep) fork(src *app.Teleport) *app.Teleport {
 	}
 	it.Close()
 	n := c14NewApp(cp)
+	if configured {
+		n = c14NewAppConfigured(cp)
+	}
 	p.dbs[n] = cp
 	return n
 }
@@ -244,7 +274,7 @@ func (p *c14Rep) record(kind string, mode string, pollution []string, r1, r2 c14
 
 // liveBlock runs a block on the live node (really committed: its history goes on) and on a fresh fork taken just before.
 func (p *c14Rep) liveBlock(kind string, pollution []string, txs [][]byte) {
-	n2 := p.fork(p.live)
+	n2 := p.forkCfg(p.live, true) // the replica is a node with another configuration
 	hdr := p.nextHeader(p.live)
 	r1 := c14RunBlock(p.live, hdr, txs)
 	r2 := c14RunBlockVia(n2, hdr, txs, true) // the replica is reached through another call path
@@ -253,7 +283,7 @@ func (p *c14Rep) liveBlock(kind string, pollution []string, txs [][]byte) {
 
 // forkBlock: two fresh forks of the live node's committed state; `pollute` runs on node 1 only.
 func (p *c14Rep) forkBlock(kind string, txs func(clean *app.Teleport) [][]byte, pollute func(n1 *app.Teleport, hdr tmproto.Header, txs [][]byte) []string) {
-	n1, n2 := p.fork(p.live), p.fork(p.live)
+	n1, n2 := p.fork(p.live), p.forkCfg(p.live, true)
 	bs := txs(n2)
 	// one empty block on both forks first: a freshly opened BaseApp has a check state without chain id (CheckTx and
 	// Simulate would fail in the ante handler before touching any keeper)
